@@ -6,7 +6,7 @@ import json, os, shutil, subprocess, sys, time, glob
 from concurrent.futures import ThreadPoolExecutor
 ROOT = "/verif"
 BASE = "/tmp/seedm"
-RELATED = {"C12D": ["C05"], "C17D": ["C04", "C15"], "C01C": ["C03"], "C01D": ["C09"], "C05C": ["C10"], "C04D": ["C06", "C07"], "C06D": ["C04"],
+RELATED = {"C16C": ["C17"], "C10D": ["C01", "C04"], "C12D": ["C05"], "C17D": ["C04", "C15"], "C01C": ["C03"], "C01D": ["C09"], "C05C": ["C10"], "C04D": ["C06", "C07"], "C06D": ["C04"],
            "C07B": ["C04", "C06"], "C14B": ["C15"], "C15D": ["C13"], "C05D": ["C07"], "C17B": ["C16"], "C07A": ["C04"], "C04B": ["C07"]}
 tier, jobs = "quick", 3
 names = []
